@@ -152,7 +152,7 @@ static Node* parse(void) {
     }
     case 'T': case 'N': {
       n->kind = N_TRY; n->id[0] = tok_int(0, 1000000);
-      n->cnt = t[0] is 'N' ? tok_int(1, 2040) : 1;
+      n->cnt = t[0] is 'N' ? tok_int(1, 2048) : 1;
       n->nf[0] = tok_int(0, MAXF);
       if (n->nf[0] is 4 or n->nf[0] is 6 or n->nf[0] is 7) { harness_bug("tree: no try site of this filter arity"); }
       for (int i = 0; i < n->nf[0]; i++) { n->f[0][i] = tok_int(0, NKINDS - 1); }
